@@ -10,7 +10,7 @@ import (
 func init() { register("C09", "exploration", checkC09) }
 
 // raise kinds
-var c09Raises = []string{"throw", "throw-custom", "div0", "index", "undefined", "type", "atoi", "key", "method-missing", "arity"}
+var c09Raises = []string{"throw", "throw-custom", "div0", "index", "undefined", "type", "atoi", "key", "method-missing", "arity", "fmt-open", "fmt-count", "bad-id"}
 
 func c09RaiseStmt(kind string, tag string) zr.Stmt {
 	switch kind {
@@ -34,6 +34,12 @@ func c09RaiseStmt(kind string, tag string) zr.Stmt {
 		return zr.ExprStmt{E: zr.MCall{Recv: intLit(5), Chain: []zr.CallPart{{Fn: "缺失"}}}}
 	case "arity":
 		return zr.ExprStmt{E: zr.CallE("层0", intLit(1), intLit(2), intLit(3), intLit(4), intLit(5))}
+	case "fmt-open": // malformed template (C14: an error); whether 拦截异常 may take it is left open
+		return zr.Show(zr.Bin{Op: "%", L: zr.S("{"), R: zr.ListLit{}})
+	case "fmt-count":
+		return zr.Show(zr.Bin{Op: "%", L: zr.S("{}{}"), R: zr.ListLit{Items: []zr.Expr{intLit(1)}}})
+	case "bad-id": // C04: starts like a number, is not one: rejected
+		return zr.Show(zr.N("3x7"))
 	}
 	return zr.Empty{}
 }
@@ -153,7 +159,7 @@ func c09Chain(d int, raise string, h int, hc string, handlerReturns bool, inLoop
 }
 
 func checkC09(c *Ctx) {
-	c.rule = "programs: (a) fixed families: call chains of depth 0..4 whose innermost body raises one of 10 raise kinds (抛出 of 异常 / custom type, ÷0, index, key, undefined name, type error, failing 转换数值, missing method, arity) optionally inside a loop, with a matching or non-matching handler (preceded by a wrong-class handler) at every level 0..depth, with/without 输出 in the handler, function or type-method callers; marks before/after every call, follow-up probes of locals, parameters, 其 and a further call after the handler ran; variants probing callee locals that must be undefined; nested families where the handler itself raises and a handler further out takes over; (b) random programs with 抛出, runtime faults, handlers on methods and program. Oracle: reference evaluator; plus quiescent invariants after every successful run: call stack empty and every module scope at depth 0 (hooks H3/H4). distinct_nontrivial = distinct (family parameters / feature set, outcome kind)"
+	c.rule = "programs: (a) fixed families: call chains of depth 0..4 whose innermost body raises one of 13 raise kinds (抛出 of 异常 / custom type, ÷0, index, key, undefined name, type error, failing 转换数值, missing method, arity, malformed % template, % argument count, number-like invalid identifier - the last three only judged where no handler of 异常 is on the way) optionally inside a loop, with a matching or non-matching handler (preceded by a wrong-class handler) at every level 0..depth, with/without 输出 in the handler, function or type-method callers; marks before/after every call, follow-up probes of locals, parameters, 其 and a further call after the handler ran; variants probing callee locals that must be undefined; nested families where the handler itself raises and a handler further out takes over; (b) random programs with 抛出, runtime faults, handlers on methods and program. Oracle: reference evaluator; plus quiescent invariants after every successful run: call stack empty and every module scope at depth 0 (hooks H3/H4). distinct_nontrivial = distinct (family parameters / feature set, outcome kind)"
 	c.assumptions = []string{"message text of runtime faults is not compared (U7)", "handlers only use 其, parameters and literals (U1)"}
 	rng := c.Rand("c09")
 	var progs []*zr.Program
